@@ -135,3 +135,11 @@ Theorem C01_returns_only_signed_content :
       (un_assertion h = Ok a \/ exists e', In e' (cand_elems h) /\ un_assertion e' = Ok a).
 Proof. exact accepted_is_signed_content. Qed.
 Print Assumptions C01_returns_only_signed_content.
+
+(* The monitor the correspondence check evaluates on the implementation's answers is the
+   boolean form of the statements above: it is true of the model itself, so it can only fire on
+   a case where the implementation departs from the model (entry point ParseXMLResponse). *)
+Theorem C01_monitor_holds_of_model :
+  forall c, pc_entry c = 0 -> spcase_agree c = true -> c01_spec c = true.
+Proof. exact c01_monitor. Qed.
+Print Assumptions C01_monitor_holds_of_model.
